@@ -289,6 +289,30 @@ def sdss_flagval(flagname, bitname):
     return flagvalue
 
 
+def _int64_array(value):
+    """Convert a Python integer to a one-element 64-bit integer array.
+
+    Parameters
+    ----------
+    value : :class:`int`
+        The integer to convert.
+
+    Returns
+    -------
+    :class:`numpy.ndarray`
+        An array containing `value`.
+
+    Raises
+    ------
+    :exc:`ValueError`
+        If `value` does not fit into a 64-bit integer.
+    """
+    try:
+        return np.array([value], dtype=np.int64)
+    except OverflowError:
+        raise ValueError("Input value {0:d} is out-of-bounds!".format(value))
+
+
 def sdss_objid(run, camcol, field, objnum, rerun=301, skyversion=None,
                firstfield=None):
     """Convert SDSS photometric identifiers into CAS-style ObjID.
@@ -346,28 +370,28 @@ def sdss_objid(run, camcol, field, objnum, rerun=301, skyversion=None,
     if firstfield is None:
         firstfield = 0
     if isinstance(run, int):
-        run = np.array([run], dtype=np.int64)
+        run = _int64_array(run)
     if isinstance(camcol, int):
-        camcol = np.array([camcol], dtype=np.int64)
+        camcol = _int64_array(camcol)
     if isinstance(field, int):
-        field = np.array([field], dtype=np.int64)
+        field = _int64_array(field)
     if isinstance(objnum, int):
-        objnum = np.array([objnum], dtype=np.int64)
+        objnum = _int64_array(objnum)
     if isinstance(rerun, int):
         if rerun == 301:
             rerun = np.zeros(run.shape, dtype=np.int64) + 301
         else:
-            rerun = np.array([rerun], dtype=np.int64)
+            rerun = _int64_array(rerun)
     if isinstance(skyversion, int):
         if skyversion == default_skyversion():
             skyversion = np.zeros(run.shape, dtype=np.int64) + default_skyversion()
         else:
-            skyversion = np.array([skyversion], dtype=np.int64)
+            skyversion = _int64_array(skyversion)
     if isinstance(firstfield, int):
         if firstfield == 0:
             firstfield = np.zeros(run.shape, dtype=np.int64)
         else:
-            firstfield = np.array([firstfield], dtype=np.int64)
+            firstfield = _int64_array(firstfield)
 
     #
     # Check that all inputs have the same shape.
